@@ -38,11 +38,17 @@ Definition optstr_eqb (a b : option string) : bool :=
   | _, _ => false
   end.
 
+(** Views and environment levels are compared as mappings (same keys, same
+    values, at every depth; key order ignored): C03 speaks of the value visible
+    at each setting, never of iteration order, and the order of a merged view
+    depends on incidental insertion order inside the levels (e.g. the order in
+    which [Environment.load] creates the keys of its result). *)
 Definition obs_eqb (a b : obs3) : bool :=
   match a, b with
   | Err e1, Err e2 => err_eqb e1 e2
   | Ok (v1, e1, s1), Ok (v2, e2, s2) =>
-      tree_eqb v1 v2 && dict_equiv e1 e2 && dict_equiv e2 e1 && list_eqb optstr_eqb s1 s2
+      dict_equiv v1 v2 && dict_equiv v2 v1 && dict_equiv e1 e2 && dict_equiv e2 e1 &&
+      list_eqb optstr_eqb s1 s2
   | _, _ => false
   end.
 
